@@ -377,6 +377,15 @@ class Ctx:
         k = str(key)
         d[k] = d.get(k, 0) + n
 
+    def skipped(self, name, replay=None, cases=None):
+        """a generated case the check could not use (the program did not adjust it, ...): counted in the histogram `name`;
+        when such cases are no longer rare the check has lost its grip on the property and finish() reports that, with one
+        of the unused inputs as the replay"""
+        self.hist(name, 1)
+        self.skips = getattr(self, "skips", 0) + 1
+        if replay is not None and getattr(self, "skip_replay", None) is None:
+            self.skip_replay = (name, replay)
+
     def sample(self, obj, limit=6):
         if len(self.samples) < limit:
             self.samples.append(obj)
@@ -469,6 +478,16 @@ class Ctx:
 
     # -- evidence / exit ------------------------------------------------------------------
     def finish(self, rule, level="proof", explanation=None):
+        skips = getattr(self, "skips", 0)
+        if skips:
+            total = max(1, getattr(self, "skip_total", 0) or self.evaluations)
+            ok = skips <= max(2, 0.2 * total)
+            self.obligation(ok, "usable cases: %d of %d generated cases could not be used" % (skips, total))
+            if not ok:
+                nm, rp = getattr(self, "skip_replay", None) or ("skipped", None)
+                self.violation({"kind": "coverage", "reason": nm, "unused_case": rp},
+                               "%d of %d generated cases could not be used (%s): on the unchanged tree such cases are rare; the property is no longer "
+                               "shown to hold on them" % (skips, total, nm), no_input=rp is None)
         for f in self.known["finding"]:
             if f["property"] == self.pid and f["key"] not in self.known_matched:
                 # listed finding that this run's inputs did not reproduce: still announced, never suppresses anything
